@@ -215,7 +215,9 @@ def fd_weights_integer_cases(fb):
     are those of the same nodes given as floats"""
     bad = []
     cnt = 0
-    for nodes in [range(-1, 3), [-2, -1, 0, 1, 2], np.array([0, 1, 3, 4]), np.array([5, 2, 0, -1], dtype=np.int32), [0, 1]]:
+    for nodes in [range(-1, 3), [-2, -1, 0, 1, 2], np.array([0, 1, 3, 4]), np.array([5, 2, 0, -1], dtype=np.int32), [0, 1],
+                  # many nodes / wide spacing: the products of node differences exceed the integer range (finding F18)
+                  (np.arange(10) * 3).astype(np.int32), (np.arange(14) * 3).astype(np.int32), np.arange(16) * 3, np.arange(0, 1400, 100), np.arange(25, dtype=np.int16)[::-1]]:
         for x0 in (0.5, 2.5, -0.25, 1):
             for n in (0, 1, 2):
                 if n >= len(nodes):
@@ -224,7 +226,8 @@ def fd_weights_integer_cases(fb):
                 a = fb.fd_weights_all(nodes, x0, n)
                 b = fb.fd_weights_all(np.asarray(list(nodes), dtype=float), float(x0), n)
                 r = fb.fd_weights(nodes, x0, n)
-                if np.shape(a) != np.shape(b) or not np.allclose(a, b, rtol=1e-12, atol=1e-13) or not np.allclose(r, b[n], rtol=1e-12, atol=1e-13):
+                scale_ = float(np.max(np.abs(b)))
+                if np.shape(a) != np.shape(b) or not np.allclose(a, b, rtol=1e-10, atol=1e-13 * max(1.0, scale_)) or not np.allclose(r, b[n], rtol=1e-10, atol=1e-13 * max(1.0, scale_)):
                     bad.append(dict(nodes=list(nodes) if not isinstance(nodes, np.ndarray) else nodes.tolist(), x0=x0, n=n,
                                     with_integer_nodes=np.asarray(a).tolist(), with_float_nodes=np.asarray(b).tolist()))
     return cnt, bad
@@ -239,7 +242,7 @@ def fd_derivative_grid_cases(fd_derivative):
     bad = []
     cnt = 0
     rng = np.random.default_rng(11)
-    for n, m in [(1, 1), (2, 1), (1, 2), (3, 2)]:
+    for n, m in [(1, 1), (2, 1), (1, 2), (3, 2), (4, 4), (6, 3), (5, 4), (6, 4)]:        # the last four: the widest stencils (mm = 6, 7)
         mm = n // 2 + m
         deg = 2 * mm
         N = 2 * mm + 2 + 5
@@ -267,7 +270,8 @@ def fd_derivative_grid_cases(fd_derivative):
                 bad.append(dict(n=n, m=m, grid=gname, raised=repr(e)[:100])); continue
             du = np.asarray(du)
             hmin = np.min(np.abs(np.diff(t)))
-            tol = 1e5 * np.finfo(float).eps * (1.0 / hmin) ** n * max(1.0, float(np.max(np.abs(fx)))) / abs(span) ** n
+            # (the weights of a 14 / 16-node stencil are larger: a factor 4 per node pair beyond mm = 4)
+            tol = 1e5 * 4.0 ** max(0, mm - 4) * np.finfo(float).eps * (1.0 / hmin) ** n * max(1.0, float(np.max(np.abs(fx)))) / abs(span) ** n
             if du.shape != (N,) or not np.all(np.abs(du - exact) <= tol):
                 k = int(np.argmax(np.abs(du - exact))) if du.shape == (N,) else 0
                 bad.append(dict(n=n, m=m, grid=gname, index=k, got=str(du[k] if du.shape == (N,) else du.shape), expected=str(exact[k]), tolerance=float(tol),
@@ -528,6 +532,27 @@ def jacobian_view_cases(nd):
                         bad.append(dict(f=name, method=method, order=order, raised=repr(e)[:100])); continue
                     if np.shape(J) != want.shape or not np.allclose(J, want, rtol=1e-7, atol=1e-7):
                         bad.append(dict(f=name, method=method, order=order, got=np.asarray(J).round(6).tolist(), expected=want.tolist()))
+        # aliasing with the CALLER's arrays: one object used in a loop that updates x in place, and whose returned arrays the caller
+        # modifies -- every call is the derivative at the x it is given
+        g = lambda z: np.array([z[0] ** 2 + z[1], np.exp(0.5 * z[0]) * z[1]])
+        dg = lambda z: np.array([[2 * z[0], 1.0], [0.5 * np.exp(0.5 * z[0]) * z[1], np.exp(0.5 * z[0])]])
+        s_ = lambda z: z[0] ** 2 * z[1] + np.sin(z[1])
+        ds = lambda z: np.array([2 * z[0] * z[1], z[0] ** 2 + np.cos(z[1])])
+        for klass, f, df in (('Jacobian', g, dg), ('Gradient', s_, ds)):
+            for method in ('central', 'forward', 'complex'):
+                cnt += 1
+                obj = getattr(nd, klass)(f, method=method)
+                xx = np.array([0.5, 1.5])
+                first = obj(xx)
+                first *= 0.0                       # the caller is free to overwrite what it was given
+                again = obj(xx)
+                xx += np.array([0.25, -0.5])       # in-place update of the iterate
+                moved = obj(xx)
+                if not np.allclose(again, df(np.array([0.5, 1.5])), rtol=1e-6, atol=1e-8):
+                    bad.append(dict(cls=klass, method=method, history='result array of the first call zeroed by the caller, same point again', got=np.asarray(again).tolist(),
+                                    expected=df(np.array([0.5, 1.5])).tolist()))
+                elif not np.allclose(moved, df(xx), rtol=1e-6, atol=1e-8):
+                    bad.append(dict(cls=klass, method=method, history='x updated in place between two calls of one object', x=xx.tolist(), got=np.asarray(moved).tolist(), expected=df(xx).tolist()))
     return cnt, bad
 
 
@@ -622,6 +647,22 @@ def elementwise_default_step_cases(nd):
                             bad.append(dict(fun=name, method=method, n=n, array=arr.tolist(), element=float(arr[idx]), in_array=(float(val[idx]), float(info.final_step[idx])),
                                             alone=(float(sv), float(si.final_step))))
                             break
+        # the input is handed over as a plain array: ndarray subclasses with their own operator semantics (np.matrix: `*` is the matrix
+        # product; masked arrays: masked positions are skipped) give what the same numbers give as a plain ndarray
+        base = np.array([[0.5, 1.5], [-0.75, 2.0]])
+        mk = {'np.matrix': lambda: np.matrix(base), 'masked array (nothing masked)': lambda: np.ma.masked_array(base, mask=False),
+              'masked array (one element masked)': lambda: np.ma.masked_array(base, mask=[[False, True], [False, False]])}
+        for name, f in (('x*x*x', lambda x: x * x * x), ('exp', np.exp)):
+            for method in ('central', 'complex'):
+                ref = nd.Derivative(f, method=method)(base)
+                for sub, make in mk.items():
+                    cnt += 1
+                    try:
+                        got = np.asarray(nd.Derivative(f, method=method)(make()))
+                    except Exception as e:
+                        bad.append(dict(fun=name, method=method, input=sub, raised=repr(e)[:100])); continue
+                    if got.shape != ref.shape or not np.array_equal(got, ref):
+                        bad.append(dict(fun=name, method=method, input=sub, got=got.tolist(), same_numbers_as_plain_ndarray=np.asarray(ref).tolist()))
     return cnt, bad
 
 
@@ -752,6 +793,13 @@ def taylor_hard_cases(fb):
     for z0 in (0.0, 1.0):
         for r in (1e-4, 1e-3):
             cases.append(('1/(z0+0.002-z)', z0, (lambda z0: lambda z: 1.0 / (z0 + 0.002 - z))(z0), lambda k: 500.0 ** (k + 1), (53, 60), dict(r=r), False))
+    # (c) an entire function that overflows on the default starting circle (the radius search has to shrink on inf / nan samples)
+    for a_ in (2e5, -3e5):
+        cases.append(('exp(%g*z)' % a_, 0.0, (lambda a_: lambda z: np.exp(a_ * z))(a_), (lambda a_: lambda k: a_ ** k / math.factorial(k))(a_), (2, 5, 10), {}, True))
+    # (d) many coefficients from a very small starting radius: the r**-k scaling overflows for high k on the first circles only, so
+    # some estimate columns are NaN in their first rows and finite later -- the finite estimates have to be the ones selected
+    cases.append(('1/(2-z)', 0.0, lambda z: 1.0 / (2.0 - z), lambda k: 2.0 ** -(k + 1), (100,), dict(r=1e-5, step_ratio=3, num_extrap=5), False))
+    cases.append(('1/(2-z)', 0.0, lambda z: 1.0 / (2.0 - z), lambda k: 2.0 ** -(k + 1), (100,), dict(r=1e-4, step_ratio=3, num_extrap=5), False))
     with warnings.catch_warnings():
         warnings.simplefilter('ignore')
         for name, z0, f, c, ns, kw, must_converge in cases:
@@ -1008,6 +1056,40 @@ def limit_cases(lm):
                         bad.append(dict(what='Residue', pole_order=p, order=order, z0=str(z0), got=str(r), expected=str(g(z0))))
     c2, b2 = limit_kwargs_cases(lm)
     cnt, bad = cnt + c2, bad + b2
+    # the caller's floating-point error state: Limit.__call__ evaluates the trial points under its own np.errstate, so a caller running
+    # with divide / invalid set to 'raise' (or with warnings promoted to errors) still gets g(z0) -- from below, log1p(w)/w leaves
+    # its domain at the largest trial steps
+    # high orders and large step ratios: the Richardson system is ill-conditioned there; the weights must still sum to one to rounding
+    # (a plain inverse instead of the pseudo-inverse loses that), so the limit of a smooth kernel keeps 7 digits
+    for order, ratio in ((6, 4.0), (8, 4.0), (6, 8.0), (8, 3.0), (5, 4.0)):
+        for z0 in (0.3, 0.3 + 0.4j):
+            for path in ('radial', 'spiral'):
+                cnt += 1
+                fh = (lambda z0: lambda z: g(z) * np.sin(z - z0) / (z - z0))(z0)
+                try:
+                    v = lm.Limit(fh, order=order, step_ratio=ratio, path=path)(z0)
+                except Exception as e:
+                    bad.append(dict(what='Limit at high order', order=order, step_ratio=ratio, path=path, z0=str(z0), raised=repr(e)[:100])); continue
+                if not abs(np.ravel(v)[0] - g(z0)) <= 1e-7 * max(1.0, abs(g(z0))):
+                    bad.append(dict(what='Limit at high order', order=order, step_ratio=ratio, path=path, z0=str(z0), got=str(np.ravel(v)[0]), expected=str(g(z0))))
+    gq = lambda z: np.exp(z) + 2.0
+    for z0 in (0.0, 1.5):
+        fq = (lambda z0: lambda z: gq(z) * np.log1p(z - z0) / (z - z0))(z0)
+        for method in ('above', 'below'):
+            for mode in ('errstate-raise', 'warnings-as-errors'):
+                cnt += 1
+                try:
+                    if mode == 'errstate-raise':
+                        with np.errstate(divide='raise', invalid='raise'):
+                            v = lm.Limit(fq, method=method)(z0)
+                    else:
+                        with warnings.catch_warnings():
+                            warnings.simplefilter('error')
+                            v = lm.Limit(fq, method=method)(z0)
+                except Exception as e:
+                    bad.append(dict(what='Limit(g*log1p(w)/w) under the caller\'s strict error state', mode=mode, method=method, z0=z0, raised=repr(e)[:100])); continue
+                if not abs(np.ravel(v)[0] - gq(z0)) <= 1e-7 * abs(gq(z0)):
+                    bad.append(dict(what='Limit under strict error state', mode=mode, method=method, z0=z0, got=str(np.ravel(v)[0]), expected=str(gq(z0))))
     return cnt, bad
 
 
